@@ -12,8 +12,10 @@ import (
 
 	"github.com/youchainhq/go-youchain/common"
 	"github.com/youchainhq/go-youchain/consensus"
+	"github.com/youchainhq/go-youchain/core/types"
 	"github.com/youchainhq/go-youchain/crypto"
 	secp256k1VRF "github.com/youchainhq/go-youchain/crypto/vrf/secp256k1"
+	"github.com/youchainhq/go-youchain/event"
 	"github.com/youchainhq/go-youchain/params"
 )
 
@@ -89,4 +91,34 @@ func (w *VerifC04Server) Seed(round *big.Int, lb params.LookBackType) (common.Ha
 
 func (w *VerifC04Server) ValidatorsCount(round *big.Int, kind params.ValidatorKind, lb params.LookBackType) uint64 {
 	return w.S.getLookbackValidatorsCount(round, kind, lb)
+}
+
+// ---- the live entry point of proposer priorities: Proposal on the Server's real verifyPriority ---------------------
+
+// VerifC04Proposal is a Proposal handler wired as Server.StartMining wires it (verifyFn = the Server's real
+// verifyPriority), without its event loop: messages are delivered synchronously to the real process* functions.
+type VerifC04Proposal struct{ P *Proposal }
+
+func (w *VerifC04Server) NewProposal() *VerifC04Proposal {
+	return &VerifC04Proposal{P: NewProposal(new(event.TypeMux), w.S.verifyPriority, func(*big.Int, uint32) bool { return false })}
+}
+
+// SetContext is the real Proposal.updateContext.
+func (v *VerifC04Proposal) SetContext(round *big.Int, roundIndex uint32, step uint32) {
+	v.P.updateContext(ContextChangeEvent{Round: round, RoundIndex: roundIndex, Step: step})
+}
+
+// PriorityMessage delivers a decoded msgPriorityProposal (sender key + payload) to the real processPriorityMessage.
+func (v *VerifC04Proposal) PriorityMessage(pub *ecdsa.PublicKey, c *ConsensusCommon) (error, bool) {
+	return v.P.processPriorityMessage(&CachedPriorityMessage{pubKey: pub, consensus: c}, msgSame)
+}
+
+// BlockMessage delivers a decoded msgBlockProposal to the real processProposedBlockMsg.
+func (v *VerifC04Proposal) BlockMessage(pub *ecdsa.PublicKey, block *types.Block, round *big.Int, roundIndex uint32) (error, bool) {
+	return v.P.processProposedBlockMsg(&CachedBlockMessage{pubKey: pub, block: block, round: round, roundIndex: roundIndex}, msgSame)
+}
+
+// Best is the real blockhashWithMaxPriority: what the voter will vote for in (round, roundIndex).
+func (v *VerifC04Proposal) Best(round *big.Int, roundIndex uint32) (priority, blockHash common.Hash, ok bool) {
+	return v.P.blockhashWithMaxPriority(round, roundIndex)
 }
